@@ -11,7 +11,7 @@ use crate::sim::DeadSend;
 use crate::faults::World;
 
 fn structural(op: &MutOp) -> bool {
-    matches!(op, MutOp::PopLast | MutOp::PopFirst | MutOp::DupLast | MutOp::Empty | MutOp::Halve | MutOp::SomeToNone | MutOp::NoneToSome | MutOp::BoolTwo)
+    matches!(op, MutOp::PopLast | MutOp::PopFirst | MutOp::DupLast | MutOp::Empty | MutOp::Halve | MutOp::SomeToNone | MutOp::NoneToSome | MutOp::NoneToSomeOne | MutOp::KeepFirst(_) | MutOp::BoolTwo)
 }
 
 pub fn build(tier: &str, seed: u64) -> World {
